@@ -34,6 +34,13 @@ U_C18 == {
     RDecl(<<BitsF("p", 3), BitsF("q", 2), BitsF("r", 3)>>, {0, 37, 90, 165, 255, 92}, 1),
     RDecl(<<U1("a"), BitsF("h", 1), BitsF("m", 14), BitsF("l", 1)>>, {0, 1, 92, 255}, 3),
     RDecl(<<BitsF("h", 6), BitsF("l", 10), DataF("d", SzConst(1))>>, {0, 45, 93, 255}, 3),
+    \* literal values that spell a repetition ({n}, {m,n}) and nothing else a regular expression gives a meaning to
+    RDecl(<<U1("a"), DataF("d", SzConst(3)), U1("z")>>, {123, 50, 125}, 5),
+    RDecl(<<IntF("a", 4, FALSE, "default"), U1("z")>>, {123, 51, 125}, 5),
+    RDecl(<<DataF("d", SzMarker(<<0>>, FALSE, TRUE)), U1("z")>>, {0, 123, 44, 125}, 4),
+    \* a size that depends on where the field begins, behind fields of other widths than one byte left as Any
+    RDecl(<<IntF("a", 2, FALSE, "default"), DataF("d", Lam(EBin("mod", EUn("neg", EOff), EC(4)))), U1("z")>>, {0, 1, 46}, 5),
+    RDecl(<<U1("n"), DataF("b", SzField("n")), DataF("d", Lam(EBin("mod", EUn("neg", EOff), EC(4)))), U1("z")>>, {0, 2, 3}, 5),
     \* the last field is a byte string whose literal value may be empty
     RDecl(<<U1("a"), DataF("d", SzField("a"))>>, {0, 1, 36}, 3),
     RDecl(<<U1("a"), DataF("d", Defer(EBin("sub", EF("a"), EC(1))))>>, {1, 2, 46}, 3),
